@@ -79,10 +79,57 @@ Definition ordered (l : list creq) : bool :=
   | _ => false
   end.
 
+(* ---- which requests the client has any business sending (C03) ----
+   relative to its configuration, the state it holds and what this server offered:
+   <starttls/> only when offered; <auth/> only with a mechanism of the credential that the
+   code implements and that some features element of this script lists; <resume/> only with
+   the id and count held, on a stream offering stream management; the bind request carries
+   the configured resource; the legacy session only when a features element makes it
+   mandatory; <enable/> only when the application asked for stream management and the
+   server offers it, with the resume flag the application wished for unless an earlier
+   <enabled/> of this Client's history did not grant resumption ([resume_wish]). *)
+Definition offered (script : list sitem) (P : features -> Prop) : Prop :=
+  exists f, In (SFeatures f) script /\ P f.
+Definition justified (cfg : config) (p : persist) (script : list sitem) (r : creq) : Prop :=
+  match r with
+  | ROpen => True
+  | RStartTls => offered script (fun f => f_tls f <> TlsNone)
+  | RAuth m => In m (c_mechs cfg) /\ implemented m = true /\ offered script (fun f => In m (f_mechs f))
+  | RResume prev h => prev = p_sm_id p /\ prev <> [] /\ h = p_inbound p /\ offered script (fun f => f_sm f = true)
+  | RBind x _ => x = c_resource cfg
+  | RSession _ => offered script (fun f => f_sess f = SessMandatory)
+  | REnable b => p_sm_enable p = true /\ b = resume_wish cfg p /\ offered script (fun f => f_sm f = true)
+  end.
+
 (* ---- the inbound count across a history of connections (C09) ---- *)
 Open Scope N_scope.
 Definition no_bind (w : list out) : Prop := forall x i, ~ In (RBind x i) (reqs w).
 Definition has_enable (w : list out) : Prop := exists b, In (REnable b) (reqs w).
+Definition has_resume (w : list out) : Prop := exists prev h, In (RResume prev h) (reqs w).
+Definition is_bind (r : creq) : bool := match r with RBind _ _ => true | _ => false end.
+Definition has_bindb (w : list out) : bool := existsb is_bind (reqs w).
+
+(* what one connection can have done to the stream-management state held on the Client:
+   (A) nothing is held afterwards (and the count is zero, or no id was held before either and
+   the count is untouched); (B) a fresh session: the id is one this server handed out
+   in an <enabled/> of this very connection, the count starts at zero, a bind was made and
+   the negotiation succeeded; (C) the state held before is kept (id, count, queue): then no
+   bind request was made, and if a <resume/> was sent at all the negotiation succeeded and
+   the server's reply to it was <resumed/> with exactly the id held. *)
+Definition issued (s : list sitem) (id : str) : Prop := exists r, In (SEnabled id r) s.
+Definition confirmed (s : list sitem) (id : str) : Prop := exists pre rest, s = pre ++ SResumed id :: rest.
+Definition sm_dropped (p p1 : persist) : Prop :=
+  p_sm_id p1 = [] /\ (p_inbound p1 = 0 \/ (p_sm_id p = [] /\ p_inbound p1 = p_inbound p)).
+Definition sm_fresh (s : list sitem) (w : list out) (r : result) (p1 : persist) : Prop :=
+  issued s (p_sm_id p1) /\ p_inbound p1 = 0 /\ p_has_queue p1 = true /\ r = Ok /\ has_bindb w = true /\
+  has_enable w.
+Definition sm_kept (p : persist) (s : list sitem) (w : list out) (r : result) (p1 : persist) : Prop :=
+  p_sm_id p1 = p_sm_id p /\ p_inbound p1 = p_inbound p /\ p_has_queue p1 = p_has_queue p /\
+  has_bindb w = false /\
+  (has_resume w -> r = Ok /\ confirmed s (p_sm_id p)).
+Definition sm_outcome (p : persist) (s : list sitem) (w : list out) (r : result) (p1 : persist) : Prop :=
+  sm_dropped p p1 \/ sm_fresh s w r p1 \/ sm_kept p s w r p1.
+
 Fixpoint hist_ok (p : persist) (cs : list conn) (rs : list (list out * result * persist)) : Prop :=
   match cs, rs with
   | [], [] => True
@@ -93,7 +140,40 @@ Fixpoint hist_ok (p : persist) (cs : list conn) (rs : list (list out * result * 
       (r = Ok -> no_bind w -> p_inbound p2 = p_inbound p + k_traffic c /\ p_sm_id p2 = p_sm_id p) /\
       (* stream management newly enabled: the count held afterwards is what was received on the new session *)
       (r = Ok -> has_enable w -> p_inbound p2 = k_traffic c) /\
+      (* a new session without stream management: no id is held, nothing will be reported to anybody *)
+      (r = Ok -> has_bindb w = true -> ~ has_enable w -> p_sm_id p2 = []) /\
+      (* a failed attempt (refused dial, TLS, authentication, ... whatever the step): the id and the count
+         are both as before, or nothing is held any more *)
+      (r <> Ok -> (p_sm_id p2 = p_sm_id p /\ p_inbound p2 = p_inbound p) \/ (p_sm_id p2 = [] /\ p_inbound p2 = 0)) /\
       hist_ok p2 cs' rs'
   | _, _ => False
   end.
 
+(* The count of the stream-managed session so far, computed from the history alone (which
+   connections succeeded, which of them bound a new session, how many stanzas arrived on
+   each) and NOT from the client's state: a connection that binds starts a new session
+   (its count is what arrives on that connection), one that succeeds without a bind
+   continues the session, a failed attempt receives nothing.  [session_counts a cs rs]
+   lists, for every connection, the count BEFORE it. *)
+Fixpoint session_counts (a : N) (cs : list conn) (rs : list (list out * result * persist)) : list N :=
+  match cs, rs with
+  | c :: cs', (w, r, _) :: rs' =>
+      a :: session_counts (match r with
+                           | Ok => if has_bindb w then k_traffic c else a + k_traffic c
+                           | Err _ _ => a
+                           end) cs' rs'
+  | _, _ => []
+  end.
+
+(* ---- resumption over a history of connections (C11) ---- *)
+Fixpoint hist11 (p : persist) (cs : list conn) (rs : list (list out * result * persist)) : Prop :=
+  match cs, rs with
+  | [], [] => True
+  | c :: cs', (w, r, p2) :: rs' =>
+      (forall prev h, In (RResume prev h) (reqs w) ->
+         prev = p_sm_id p /\ p_sm_id p <> [] /\ h = p_inbound p) /\
+      (exists p1, p2 = match r with Ok => add_inbound p1 (k_traffic c) | Err _ _ => p1 end /\
+                  sm_outcome p (k_script c) w r p1) /\
+      hist11 p2 cs' rs'
+  | _, _ => False
+  end.
